@@ -200,8 +200,9 @@ type vGen struct {
 	// WrongSigner: probability (num/den) that a random step is signed by
 	// somebody else
 	WrongSigner [2]int
-	// AtEnd runs after the random steps
-	AtEnd func(g *vGen)
+	// AtEnd runs after the random steps, AtStart before the templates
+	AtEnd   func(g *vGen)
+	AtStart func(g *vGen)
 	// ForceTemplate is always run first in histories with an even index
 	ForceTemplate string
 }
@@ -1055,6 +1056,9 @@ func vRunRandomHistory(h *vHist, nTemplates, nRandom int, tune func(g *vGen)) {
 		if h.rng.Chance(4, 5) {
 			g.ensureProvider(p)
 		}
+	}
+	if g.AtStart != nil {
+		g.AtStart(g)
 	}
 	scs := vScenarios()
 	if g.ForceTemplate != "" && h.rng.Bool() {
